@@ -186,36 +186,45 @@ func resetRule(c *Ctx, r *Rule) {
 				r.Fail(key, mu.Pos(), "Reset rewrites a gauge: gauges must keep their last value until they expire")
 				return
 			}
-			u, ok := mu.Value.(*ssa.UnOp)
-			var al *ssa.Alloc
-			if ok {
-				al, _ = u.X.(*ssa.Alloc)
-			}
-			if al == nil || al.Comment != "complit" {
-				r.Fail(key, mu.Pos(), "value stored back is not a fresh composite literal: "+pathOf(mu.Value))
+			if len(cl.Params) < 3 {
+				r.Fail(key, mu.Pos(), "closure does not have the (name, tagsKey, element) shape")
 				return
 			}
-			fields := complitFields(al)
-			st := derefType(al.Type()).Underlying().(*types.Struct)
+			oa := &origAnalysis{}
+			env := &oenv{params: map[*ssa.Parameter][]osym{}, free: map[*ssa.FreeVar][]osym{}, elem: cl.Params[2]}
+			fields := oa.fieldsOf(env, mu.Value, 0)
+			st, isStruct := mu.Value.Type().Underlying().(*types.Struct)
+			if !isStruct {
+				r.Fail(key, mu.Pos(), "value stored back is not a struct: "+pathOf(mu.Value))
+				return
+			}
+			allIn := func(ss []osym, okf func(s osym) bool) bool {
+				if len(ss) == 0 {
+					return false
+				}
+				for _, s := range ss {
+					if !okf(s) {
+						return false
+					}
+				}
+				return true
+			}
 			for i := 0; i < st.NumFields(); i++ {
 				f := st.Field(i).Name()
-				v, has := fields[f]
-				org := "zero"
-				if has {
-					org = fieldOrigin(cl, f, v)
-				}
+				ss := fields[f]
+				org := symSetString(ss)
 				fk := key + ":" + f
 				switch {
 				case identity[f]:
-					r.Check(fk, org == "carried", mu.Pos(), fmt.Sprintf("identity field %s.%s must be carried over from the same field of the existing series; origin=%s", T, f, org))
+					r.Check(fk, allIn(ss, func(s osym) bool { return s.Kind == "elemfield" && s.Field == f }), mu.Pos(), fmt.Sprintf("identity field %s.%s must be carried over from the same field of the existing series; origin=%s", T, f, org))
 				case T == "Timer" && f == "Values":
-					r.Check(fk, org == "truncated" || org == "zero", mu.Pos(), "Timer.Values must be emptied (x[:0] or nil); origin="+org)
+					r.Check(fk, allIn(ss, func(s osym) bool { return s.Kind == "zero" || s.Kind == "trunc" && s.Field == f }), mu.Pos(), "Timer.Values must be emptied (x[:0] or nil); origin="+org)
 				case T == "Timer" && f == "Histogram":
-					r.Check(fk, org == "zero" || org == "emptyHistogram", mu.Pos(), "Timer.Histogram must be nil or a zeroed histogram; origin="+org)
+					r.Check(fk, allIn(ss, func(s osym) bool { return s.Kind == "zero" || s.Kind == "emptyhist" }), mu.Pos(), "Timer.Histogram must be nil or a zeroed histogram; origin="+org)
 				case T == "Set" && f == "Values":
-					r.Check(fk, org == "fresh-map", mu.Pos(), "Set.Values must be a fresh empty map; origin="+org)
+					r.Check(fk, allIn(ss, func(s osym) bool { return s.Kind == "freshmap" }), mu.Pos(), "Set.Values must be a fresh empty map; origin="+org)
 				default:
-					r.Check(fk, org == "zero", mu.Pos(), fmt.Sprintf("data field %s.%s must be zero after Reset; origin=%s", T, f, org))
+					r.Check(fk, allIn(ss, func(s osym) bool { return s.Kind == "zero" }), mu.Pos(), fmt.Sprintf("data field %s.%s must be zero after Reset; origin=%s", T, f, org))
 				}
 			}
 			// stored under the iterated keys
